@@ -181,46 +181,95 @@ def reject_deletes(r, F):
               "the piece is registered in the write queue before it is submitted", "an entry is submitted to the engine without being registered in the keeper first", ln=fn.lo)
 
 
+def _strip_add(fn, op):
+    """(base operand, c) if op is `base + c` with a constant c (through the checked-add tuple), else (op, 0)"""
+    if op.place is None or not op.place.is_local() and not op.place.proj:
+        return op, 0
+    defs = fn.defs().get(op.place.local, [])
+    ds = [d for d in defs if d[2] == "assign" and not fn.blocks[d[0]].cleanup]
+    if len(ds) != 1:
+        return op, 0
+    rv = ds[0][3].rv
+    if rv.k == "use" and rv.ops[0].place is not None:
+        inner = rv.ops[0]
+        # `_x = move (_y.0)` where `_y = AddWithOverflow(a, c)`
+        ds2 = [d for d in fn.defs().get(inner.place.local, []) if d[2] == "assign"]
+        if len(ds2) == 1 and ds2[0][3].rv.k == "bin" and ds2[0][3].rv.op in ("AddWithOverflow", "Add"):
+            l, rr = ds2[0][3].rv.ops
+            for a, k in ((l, rr), (rr, l)):
+                if k.is_const() and k.const_val() is not None:
+                    return a, k.const_val()
+        if inner.place.is_local():
+            return _strip_add(fn, inner)
+    if rv.k == "bin" and rv.op in ("AddWithOverflow", "Add"):
+        l, rr = rv.ops
+        for a, k in ((l, rr), (rr, l)):
+            if k.is_const() and k.const_val() is not None:
+                return a, k.const_val()
+    return op, 0
+
+
 def seq_restore(r, F):
     fn = F.fn("foyer_storage::engine::block::recover::RecoverRunner::run::{closure#0}")
     st = fn.calls_to(r"atomic::Atomic::<u64>::store$")
     st = [b for b in st if "sequence" in backslice(fn, b.term.args[0], "prov").upvars or backslice(fn, b.term.args[0], "prov").has_field("sequence")]
     if len(st) != 1:
         raise AnchorMissing("RecoverRunner::run: the store on the sequence counter was not found exactly once (%d)" % len(st))
-    ls = set(fn.var_locals("latest_sequence"))
-    sl = backslice(fn, st[0].term.args[1], "prov")
-    plus = [s for _, s in sl.binops if s.rv.k == "bin" and s.rv.op in ("AddWithOverflow", "Add")]
-    ok = False
-    for s in plus:
-        l, rr = s.rv.ops
-        for a, c in ((l, rr), (rr, l)):
-            if a.place is not None and (a.place.local in ls or set(backslice(fn, a, "prov").locals) & ls) and c.is_const() and (c.const_val() or 0) >= 1:
-                ok = True
-    r.require(ok, fn, "sequence.store(latest_sequence + c), c>=1", "the counter restarts strictly above everything recovered",
-              "after recovery the sequence counter is not set to latest recovered sequence + 1: new writes can reuse or fall below "
-              "recovered sequences and lose against stale copies", ln=st[0].term.ln)
-    # latest_sequence folds in both entry sequences and tombstone sequences
-    srcs = {"EntryAddress": False, "Tombstone": False}
-    bodies = [fn] + F.descendants(fn)
-    for g in bodies:
+    base, gplus = _strip_add(fn, st[0].term.args[1])
+    if base.place is None:
+        raise AnchorMissing("RecoverRunner::run: the stored sequence is a constant")
+    # the fold variable: the user local the stored value is read from
+    bsl = backslice(fn, base, "prov")
+    fold = {l for l in bsl.locals if fn.local_name(l)}
+    if not fold:
+        raise AnchorMissing("RecoverRunner::run: the variable folded into the stored sequence was not identified")
+    # closures that capture the fold variable by mutable reference: upvar name per closure
+    cap = {}
+    for b in fn.blocks:
+        for s in b.stmts:
+            if s.k == "assign" and s.rv.k == "agg" and s.rv.j.get("ak") == "closure":
+                for (name, o) in s.rv.agg_fields():
+                    if o.place is not None and set(backslice(fn, o, "prov").locals) & fold:
+                        cap[s.rv.j["def"]] = name
+    srcs = {"EntryAddress": None, "Tombstone": None}
+    bodies = [(fn, None)] + [(F.P[cid], up) for cid, up in cap.items() if cid in F.P]
+    for g, up in bodies:
         for b in g.blocks:
             if b.cleanup:
                 continue
             for s in b.stmts:
                 if s.k != "assign":
                     continue
-                tgt_is_latest = (g is fn and s.place.local in ls and s.place.is_local()) or \
-                    (g is not fn and s.place.local == 1 and any("latest_sequence" in n for n in s.place.fields()[:1]))
-                if not tgt_is_latest:
+                if up is None:
+                    tgt = s.place.is_local() and s.place.local in fold
+                else:
+                    tgt = s.place.local == 1 and s.place.fields()[:1] == [up]
+                if not tgt:
                     continue
-                dsl = backslice(g, s.rv.ops[0] if s.rv.ops else s.place, "dep")
+                rhs = s.rv.ops[0] if s.rv.ops else None
+                if rhs is None:
+                    continue
+                dsl = backslice(g, rhs, "dep")
                 for k in srcs:
                     if dsl.has_field("sequence", k):
-                        srcs[k] = True
-    r.require(srcs["EntryAddress"], fn, "latest_sequence >= every recovered entry", "entry sequences are folded into latest_sequence",
-              "latest_sequence ignores recovered entry sequences", ln=fn.lo)
-    r.require(srcs["Tombstone"], fn, "latest_sequence >= every recovered tombstone", "tombstone sequences are folded into latest_sequence",
-              "latest_sequence ignores recovered tombstones: after a restart a new insert can get a sequence below an old tombstone and stay hidden", ln=fn.lo)
+                        # a +c applied on the way from the source field to the fold variable?
+                        plus = 0
+                        for _, bs in dsl.binops:
+                            if bs.rv.k == "bin" and bs.rv.op in ("AddWithOverflow", "Add"):
+                                l, rr = bs.rv.ops
+                                for a, kk in ((l, rr), (rr, l)):
+                                    if kk.is_const() and (kk.const_val() or 0) >= 1 and a.place is not None and backslice(g, a, "dep").has_field("sequence", k):
+                                        plus = max(plus, kk.const_val())
+                        srcs[k] = max(srcs[k] or 0, plus) if srcs[k] is not None else plus
+    for k, what in (("EntryAddress", "recovered entry"), ("Tombstone", "recovered tombstone")):
+        folded = srcs[k] is not None
+        strictly = folded and (gplus >= 1 or srcs[k] >= 1)
+        r.require(folded, fn, "counter >= every %s" % what, "%s sequences are folded into the restored counter" % what,
+                  "the restored sequence counter ignores %s sequences" % what, ln=st[0].term.ln)
+        r.require(strictly, fn, "counter > every %s" % what,
+                  "the counter restarts strictly above every %s (+%d at the store, +%d at the fold)" % (what, gplus, srcs[k] or 0),
+                  "after recovery the sequence counter is not strictly above every %s sequence: the first write after a restart reuses the "
+                  "sequence of the newest persisted record, and equal sequences let an older version replace a newer one" % what, ln=st[0].term.ln)
 
 
 def phantom(r, F):
@@ -310,6 +359,6 @@ def run(chk, F):
     chk.run_rule("C01.queue-release", "the disk index is updated (after successful writes) before the write-queue references are released", 4, queue_release, F)
     chk.run_rule("C01.keeper-identity", "a write-queue reference removes only its own piece from the keeper", 1, keeper_identity, F)
     chk.run_rule("C01.reject-deletes", "an admission-rejected update deletes the older disk copy; accepted ones are registered then submitted", 3, reject_deletes, F)
-    chk.run_rule("C01.seq-restore", "recovery restarts the sequence counter above every recovered entry and tombstone", 3, seq_restore, F)
+    chk.run_rule("C01.seq-restore", "recovery restarts the sequence counter strictly above every recovered entry and tombstone", 4, seq_restore, F)
     chk.run_rule("C01.phantom", "a disk-only insert removes the in-memory copy of the key", 1, phantom, F)
     chk.run_rule("C01.both-tiers", "remove and clear reach both tiers on every path", 2, both_tiers, F)
